@@ -96,7 +96,7 @@ Ltac dw w := destruct w as [st0 cc q h fl pu cl fa tr hd]; cbn in *.
 Definition fits (s : wstate) (e : event) : Prop :=
   match s, e with
   | Handshake, EAccept _ _ | Handshake, EClose _ _ => True
-  | Accepted, EText _ | Accepted, EBytes _ | Accepted, EClose _ _ => True
+  | Accepted, EText _ _ | Accepted, EBytes _ _ | Accepted, EClose _ _ => True
   | _, _ => False
   end.
 
